@@ -5,27 +5,36 @@
 // loop, return path) is a step of its own because v_unlock parks after the unlock, and
 // sync_awaiter::flag.wait() of a blocking next() is a controlled wait.
 //
-// Threads: "P" the publisher thread (publish single/batch, close, ~publisher, kick) and one thread per
+// The published item type poisons itself in its destructor and counts copies made FROM a destroyed item, so a value
+// that next() copies out of the window after the lock was released (while another thread's publish trimmed the
+// window) is observable without a sanitizer ("stale" in the projection, and the poisoned value in "recv").
+// Scheduling points are the lock operations, the park after every unlock, controlled waits, marks -- and
+// sync_awaiter's notify: the waking thread stands there after it has set the released thread's flag, which makes
+// the wake-up loop one waiter per step (another publishing thread can run in between).
+//
+// Threads: "P" the publisher thread (publish single/batch, close, ~publisher, kick), optionally "Q", a second
+// thread that publishes / closes through the same publisher, and one thread per
 // subscriber identity ("1","2",...: construct recent / at position / by copy of another thread's
 // subscriber, blocking next(), next_ready(), a coroutine doing co_await next() that is resumed -- by the
 // library -- on the publisher thread, destroy).  Each thread loops: park at mark("cmd"); run the command
 // the controller stored for it.
 //
 // One specification action = the controller moves the thread from its mark to the lock operation of the
-// call (first critical section of a call) and performs ONE critical section; PWake = the publisher's
-// step from its post-unlock park through the wake-up loop to its next lock operation.  After every
-// action each thread is moved on through code that the specification says has no visible effect
-// (post-unlock return paths, a released thread walking to its next lock) -- never through a lock -- until
-// it shows the pending operation the specification expects (idle | lock | unlocked | wait).
+// call (first critical section of a call) and performs ONE critical section; PWake / P2Wake = one stretch of
+// the wake-up loop (up to the notify of the released thread / the lock of the resumed coroutine's get_value);
+// TTail = what follows the unlock of get_value up to the return of next().  After every action each thread is
+// moved on through code that the specification says has no visible effect (other return paths, a released
+// thread walking to its next lock) -- never through a lock -- until it shows the pending operation the
+// specification expects (idle | lock | unlocked | notify | wait).
 // Checked after every action: the projection below; and for EVERY step that is not a critical section:
 // the mutex-guarded state (_pos, _q, _closed, _next_free, _regs) is identical before and after it, so a
 // guarded access moved out of the lock, a method that lost its lock_guard, a wake-up performed inside the
 // lock (the released thread is runnable too early / the resumed coroutine dead-locks on the queue lock)
 // and an added or removed critical section are all reported.
 //
-// header: {"min":n,"max":n (99 = unlimited),"threads":["P","1","2"]}
+// header: {"min":n,"max":n (99 = unlimited),"threads":["P","Q"?,"1","2"]}
 // projection: {"closed","nextFree","pos","pubAlive","q","regs":[{"awt","kicked","pos","used"[,"woken"]}],
-//              "pend":{thread: idle|lock|unlocked|wait|woken|done},
+//              "pend":{thread: idle|lock|unlocked|notify|wait|woken|done}, "stale": copies made from a destroyed item,
 //              "subs":{"<id>":{"eos","hnd","mode","recv","res"}}}
 #include <cocls/publisher.h>
 #include <cocls_verif/pthread_shim.h>
@@ -41,14 +50,28 @@ using namespace rp;
 using cocls_verif::vsched;
 using cocls_verif::op_t;
 
-using Pub = cocls::publisher<int>;
+// published item: its destructor poisons it, copying from a poisoned (destroyed) item is counted
+static const int POISON = -777;
+struct Item {
+    int v = 0;
+    static inline long stale = 0;
+    Item() = default;
+    explicit Item(int x) : v(x) {}
+    Item(const Item &o) : v(o.v) { if (o.v == POISON) stale++; }
+    Item(Item &&o) noexcept : v(o.v) { if (o.v == POISON) stale++; }
+    Item &operator=(const Item &o) { v = o.v; if (o.v == POISON) stale++; return *this; }
+    Item &operator=(Item &&o) noexcept { v = o.v; if (o.v == POISON) stale++; return *this; }
+    ~Item() { *const_cast<volatile int *>(&v) = POISON; }
+};
+
+using Pub = cocls::publisher<Item>;
 using Queue = Pub::queue;
-using SubT = cocls::subscriber<int>;
+using SubT = cocls::subscriber<Item>;
 
 struct QProbe : Queue {
     static auto &regs(Queue &q) { return q.*(&QProbe::_regs); }
     static std::size_t &next_free(Queue &q) { return q.*(&QProbe::_next_free); }
-    static std::deque<int> &window(Queue &q) { return q.*(&QProbe::_q); }
+    static std::deque<Item> &window(Queue &q) { return q.*(&QProbe::_q); }
     static std::size_t &pos(Queue &q) { return q.*(&QProbe::_pos); }
     static bool &closed(Queue &q) { return q.*(&QProbe::_closed); }
 };
@@ -112,7 +135,7 @@ struct Sub {
     ~Sub() { reader.reset(); if (obj) obj->~SubProbe(); }
     void deliver(bool r) {
         res = "none";
-        if (r) recv.push_back(obj->value()); else eos = true;
+        if (r) recv.push_back(obj->value().v); else eos = true;
     }
 };
 
@@ -146,17 +169,18 @@ struct World {
     Queue &q() { return *qp; }
 };
 
-static void publisher_thread(World &w) {
+static void publisher_thread(World &w, const std::string me) {
     for (;;) {
         vsched::mark("cmd");
         if (w.stop) return;
-        Cmd c = w.cmd["P"];
+        Cmd c = w.cmd[me];
         if (c.op == "push") {
-            if (c.a == 1 && (w.npub % 2) == 0) { int v = ++w.npub; w.pub->publish(std::move(v)); }
-            else if (c.a == 1) { const int v = ++w.npub; w.pub->publish(v); }
+            // the values were numbered by the controller (c.b = first value): the order of the critical sections decides
+            if (c.a == 1 && (c.b % 2) == 0) { Item v(c.b); w.pub->publish(std::move(v)); }
+            else if (c.a == 1) { const Item v(c.b); w.pub->publish(v); }
             else {
-                std::vector<int> vals;
-                for (int i = 0; i < c.a; i++) vals.push_back(++w.npub);
+                std::vector<Item> vals;
+                for (int i = 0; i < c.a; i++) vals.emplace_back(c.b + i);
                 w.pub->publish(vals.begin(), vals.end());
             }
         } else if (c.op == "close") {
@@ -207,6 +231,7 @@ static std::string pend_of(World &w, const std::string &t) {
     if (e.op == op_t::mark) return "idle";
     if (e.op == op_t::lock) return "lock";
     if (e.op == op_t::unlock && w.sched.pending_after(id)) return "unlocked";
+    if (e.op == op_t::notify) return "notify";
     if (e.op == op_t::wait) return w.sched.enabled(id) ? "woken" : "wait";
     return std::string("?") + cocls_verif::op_name(e.op);
 }
@@ -219,7 +244,7 @@ static J core(World &w) {
     m.set("closed", QProbe::closed(q));
     m.set("nextFree", QProbe::next_free(q));
     J win = J::list();
-    for (int v : QProbe::window(q)) win.push(v);
+    for (const Item &v : QProbe::window(q)) win.push(v.v);
     m.set("q", win);
     J rl = J::list();
     for (auto &r : QProbe::regs(q)) {
@@ -244,8 +269,9 @@ static J project(World &w) {
     m.set("pubAlive", w.pub_alive);
     m.set("nextFree", QProbe::next_free(q));
     J win = J::list();
-    for (int v : QProbe::window(q)) win.push(v);
+    for (const Item &v : QProbe::window(q)) win.push(v.v);
     m.set("q", win);
+    m.set("stale", Item::stale);
     auto &regs = QProbe::regs(q);
     J rl = J::list();
     for (std::size_t i = 0; i < regs.size(); i++) {
@@ -334,8 +360,9 @@ struct Runner {
             for (auto &t : w.threads) {
                 std::string cur = pend_of(w, t), wt = want.at(t).as_str();
                 if (cur == wt) continue;
-                if ((cur == "unlocked" && wt != "unlocked") || (cur == "woken" && wt != "wait")) {
-                    plain_step(k, t, cur == "unlocked" ? "after an unlock" : "released thread on its way to the next lock");
+                if (cur == "unlocked" || cur == "notify" || (cur == "woken" && wt != "wait")) {
+                    plain_step(k, t, cur == "unlocked" ? "after an unlock" : cur == "notify" ? "rest of the wake-up loop"
+                                                                             : "released thread on its way to the next lock");
                     moved = true;
                     if (bad) break;
                 }
@@ -349,7 +376,25 @@ struct Runner {
             const Step &st = sc.steps[k];
             const std::string &a = st.name;
             JV exp = JReader(st.expected).parse();
-            if (a == "PPush") { Cmd c; c.op = "push"; c.a = st.iarg(0); to_lock(k, "P", c); if (!bad) cs_step(k, "P"); }
+            if (a == "PPush" || a == "P2Push") {
+                const char *t = a == "PPush" ? "P" : "Q";
+                Cmd c; c.op = "push"; c.a = st.iarg(0); c.b = w.npub + 1;
+                w.npub += c.a;
+                to_lock(k, t, c);
+                if (!bad) cs_step(k, t);
+            }
+            else if (a == "P2Close") { Cmd c; c.op = "close"; to_lock(k, "Q", c); if (!bad) cs_step(k, "Q"); }
+            else if (a == "P2Wake") {
+                std::string p = pend_of(w, "Q");
+                if (p != "unlocked" && p != "notify") fail(k, "second publishing thread is not in its wake-up loop: " + p);
+                else plain_step(k, "Q", "wake-up loop");
+            }
+            else if (a == "P2Tail") cs_step(k, "Q");
+            else if (a == "TTail") {
+                const std::string &t = st.sarg(0);
+                if (pend_of(w, t) != "unlocked") fail(k, "thread " + t + " is not between the unlock of get_value and the return of next(): " + pend_of(w, t));
+                else plain_step(k, t, "return path of next()");
+            }
             else if (a == "PClose") {
                 Cmd c; c.op = st.sarg(0) == "close" ? "close" : "destroy";
                 to_lock(k, "P", c);
@@ -358,7 +403,8 @@ struct Runner {
             }
             else if (a == "PKick") { Cmd c; c.op = "kick"; c.a = st.iarg(0); to_lock(k, "P", c); if (!bad) cs_step(k, "P"); }
             else if (a == "PWake") {
-                if (pend_of(w, "P") != "unlocked") fail(k, "publisher thread is not between its unlock and the wake-up loop: " + pend_of(w, "P"));
+                std::string p = pend_of(w, "P");
+                if (p != "unlocked" && p != "notify") fail(k, "publisher thread is not in its wake-up loop: " + p);
                 else plain_step(k, "P", "wake-up loop");
             }
             else if (a == "PFetch" || a == "PTail") cs_step(k, "P");
@@ -409,10 +455,13 @@ int main() {
         w.pub_alive = true;
         w.qp = w.pub->get_queue();
         for (auto &x : sc.hdr.at("threads").l) w.threads.push_back(x.s);
-        w.sched.lock_grain = true;
+        // lock grain plus sync_awaiter's notify: every other atomic operation runs through
+        w.sched.lock_grain = false;
+        w.sched.no_yield = [](const cocls_verif::event &e) { return !(e.op == op_t::mark || e.op == op_t::notify); };
         w.sched.install();
+        Item::stale = 0;
         for (auto &t : w.threads) {
-            if (t == "P") w.tid[t] = w.sched.spawn([pw] { publisher_thread(*pw); });
+            if (t == "P" || t == "Q") { std::string name = t; w.tid[t] = w.sched.spawn([pw, name] { publisher_thread(*pw, name); }); }
             else { int id = atoi(t.c_str()); w.tid[t] = w.sched.spawn([pw, id] { subscriber_thread(*pw, id); }); }
         }
         Runner r{w, sc, rep};
